@@ -48,7 +48,7 @@ def quote_sites(body, names=QUOTE_MACROS):
 def guard_atoms(body, node):
     """Flatten the guard chain of node into (canon string, polarity, raw node) atoms that must all hold."""
     out = []
-    for pol, kind, g in body.guards(node):
+    for pol, kind, g in body.guards(node, nested=True):
         if kind == "cond":
             out += _atoms(body, g, pol)
         elif kind == "arm":
@@ -56,6 +56,19 @@ def guard_atoms(body, node):
             out.append(("arm:%s:%d" % (body.canon(m["scrut"], 4), i), True, m))
         elif kind == "letelse":
             out.append(("letelse:" + body.canon(g.get("init", {}), 4), True, g))
+        elif kind == "notarm":
+            m, i = g
+            out.append(("arm:%s:%d" % (body.canon(m["scrut"], 4), i), False, m))
+        elif kind == "notall":
+            parts = []
+            for p2, k2, g2 in g:
+                if k2 == "cond":
+                    parts.append(("" if p2 else "!") + body.canon(g2, 5))
+                elif k2 == "arm":
+                    parts.append("arm:%s:%d" % (body.canon(g2[0]["scrut"], 4), g2[1]))
+                else:
+                    parts.append(k2)
+            out.append(("all(" + " && ".join(parts) + ")", False, g[0][2] if g[0][1] == "cond" else g[0][2][0]))
     return out
 
 
